@@ -328,13 +328,21 @@ func TestC18_Random(t *testing.T) {
 			main := []string{"app", "biz", "rpc"}[which]
 			// a sub type may itself have two segments, and may begin with the helper's own main type
 			// ("rpc_gateway" under RegisterRPCTag): the built name is _<main>_<sub>[_<action>] as given
-			switch rapid.IntRange(0, 5).Draw(t, "subShape") {
+			switch rapid.IntRange(0, 8).Draw(t, "subShape") {
 			case 0:
 				sub = main + "_" + sub
 			case 1:
 				sub = sub + "_" + part.Draw(t, "sub2")
 			case 2:
 				sub = main
+			case 3:
+				// parts made of legal characters whose underscores are misplaced or too many: what
+				// the helper builds is a name like any other and has to pass as one
+				sub = rapid.SampledFrom([]string{"order__pay", "user_", "_user", "a_b_c_d", "a_b_c", "x__y", "_", "a_b_", "_a_b"}).Draw(t, "oddSub")
+			case 4:
+				if action != "" {
+					action = rapid.SampledFrom([]string{"do_get", "start_", "_start", "a__b", "a_b_c", "_"}).Draw(t, "oddAction")
+				}
 			}
 			// aim at the length boundary: built names of exactly 36, 35 and 34 characters
 			if target := rapid.SampledFrom([]int{36, 0, 35, 34, 0}).Draw(t, "targetLen"); target > 0 {
